@@ -623,6 +623,41 @@ func (t *Ticker) Stop() {
 	t.stopped = true
 }
 
+// Timer replaces *time.Timer as returned by time.AfterFunc in scheduled packages.
+type Timer struct {
+	real    *time.Timer
+	stopped bool
+	fired   bool
+}
+
+// AfterFunc replaces time.AfterFunc: f runs in its own goroutine once the (virtual) clock has advanced by d.
+func AfterFunc(d time.Duration, f func()) *Timer {
+	s := sch
+	if s == nil || s.killing {
+		return &Timer{real: time.AfterFunc(d, f)}
+	}
+	t := &Timer{}
+	Go("AfterFunc", func() {
+		Sleep(d)
+		if t.stopped {
+			return
+		}
+		t.fired = true
+		f()
+	})
+	return t
+}
+
+// Stop prevents the timer from firing; it reports whether the call stopped it.
+func (t *Timer) Stop() bool {
+	if t.real != nil {
+		return t.real.Stop()
+	}
+	was := !t.stopped && !t.fired
+	t.stopped = true
+	return was
+}
+
 // TraceString renders a schedule.
 func (s *Sched) TraceString() string {
 	out := ""
